@@ -41,5 +41,8 @@ Seed13 == << Nd("FloatValueDataSource", <<E("value", 1)>>), Nd("template:\"x{val
 \* a second variable given as a range: 7-digit end point, both scales, end point excluded / included
 Seed14 == << [Sw("FloatValueDataSource", <<1, 2>>, "combinatorial", FALSE, <<"t">>) EXCEPT !.sweep.rng = Rng(1, 1234567, 2, TRUE, FALSE)],
              [Sw("FloatValueDataSourceWithDefault", <<1, 2>>, "combinatorial", FALSE, <<"t">>) EXCEPT !.sweep.rng = Rng(2, 16777216, 2, FALSE, TRUE)] >>
-AllSeeds == {Seed14, Seed1, Seed2, Seed3, Seed4, Seed5, Seed6, Seed7, Seed8, Seed9, Seed10, Seed11, Seed12, Seed13}
+\* explicit value lists holding NON-FINITE numbers (the tokens 99991 / 99993 are written .inf / -.inf)
+Seed15 == << Sw("FloatValueDataSource", <<1, 99991, 3>>, "combinatorial", FALSE, <<"t">>),
+             Sw("FloatValueDataSourceWithDefault", <<99993, 2>>, "by_position", TRUE, <<"+", <<"t">>, <<"c", 1>>>>) >>
+AllSeeds == {Seed15, Seed14, Seed1, Seed2, Seed3, Seed4, Seed5, Seed6, Seed7, Seed8, Seed9, Seed10, Seed11, Seed12, Seed13}
 =============================================================================
